@@ -41,6 +41,17 @@ def persistStep (st : PersistDrv) (args : List String) : PersistDrv × String :=
       let ops := (findStr "ops" rest).map (fun o => if o = "" then [] else o.splitOn ";") |>.getD []
       ({ disk := { version := v, store := runEncoded {} ops }, opened := false }, "ok")
     | none => (st, "bad-op")
+  | ["golden", kArg] =>
+    -- a directory in the current format as every build so far has written it (laid down with raw keys): opening it
+    -- is the identity (`migrate_current_identity`), every link, balance and trial balance is read back
+    let k := ((findStr "k" [kArg]).bind (·.toNat?)).getD 0
+    let base := ["setnode+a+t:1000+1+geth+~+~+0", "setnode+b+t:1000+1+geth+~+~+0", "link+X+a", "addab+X+7"]
+    let extra := if k == 0 then ["addnb+b+3"] else if k == 1 then ["link+X+b"] else ["link+Y+b", "addab+Y+-2"]
+    let store := runEncoded {} (base ++ extra)
+    let d := dumpStore store
+    let b := (((d.splitOn "]B[").getD 1 "").splitOn "]A[").getD 0 ""
+    let l := (d.splitOn "]L[").getD 1 ""
+    ({ disk := { version := 2, store := store }, opened := true }, s!"ok B[{b}] L[{l} trials={store.trials.length}")
   | ["open"] =>
     match openDisk st.disk with
     | .ok d => ({ disk := d, opened := true }, "ok")
